@@ -304,7 +304,7 @@ func genString(t Src, d Domain, label string) string {
 	if d == Small {
 		return smallStrings[t.IntRange(0, len(smallStrings)-1, label)]
 	}
-	if t.Bool(label+"_h") {
+	if t.Bool(label + "_h") {
 		return HostileStrings[t.IntRange(0, len(HostileStrings)-1, label)]
 	}
 	return smallStrings[t.IntRange(0, len(smallStrings)-1, label)]
@@ -329,7 +329,7 @@ func genSub(t Src, d Domain, label string) *facts.Sub {
 		X:   genIntOfKind(t, reflect.Int64, d, label+"X"),
 		Y:   genFloat(t, d, label+"Y"),
 		S:   genString(t, d, label+"S"),
-		B:   t.Bool(label+"B"),
+		B:   t.Bool(label + "B"),
 		Arr: []int64{genIntOfKind(t, reflect.Int64, d, label+"A0"), genIntOfKind(t, reflect.Int64, d, label+"A1")},
 	}
 }
@@ -352,8 +352,8 @@ func Fact(t Src, d Domain, label string) *facts.Fact {
 	f.F64 = genFloat(t, d, label+"F64")
 	f.S = genString(t, d, label+"S")
 	f.S2 = genString(t, d, label+"S2")
-	f.B = t.Bool(label+"B")
-	f.B2 = t.Bool(label+"B2")
+	f.B = t.Bool(label + "B")
+	f.B2 = t.Bool(label + "B2")
 	f.T = genTime(t, label+"T")
 	f.T2 = genTime(t, label+"T2")
 	pi := gi(reflect.Int64, "PI")
@@ -374,7 +374,7 @@ func Fact(t Src, d Domain, label string) *facts.Fact {
 		f.SArr[i] = genString(t, d, label+"SArr")
 	}
 	f.AU8 = []uint8{uint8(gi(reflect.Uint8, "AU8")), uint8(gi(reflect.Uint8, "AU8"))}
-	f.BArr = []bool{t.Bool(label+"BArr0"), t.Bool(label+"BArr1")}
+	f.BArr = []bool{t.Bool(label + "BArr0"), t.Bool(label + "BArr1")}
 	f.RO = make([]int64, ROLen)
 	for i := range f.RO {
 		f.RO[i] = gi(reflect.Int64, "RO")
@@ -392,7 +392,7 @@ func Fact(t Src, d Domain, label string) *facts.Fact {
 		f.M[k] = gi(reflect.Int64, "M")
 		f.MF[k] = genFloat(t, d, label+"MF")
 		f.MS[k] = genString(t, d, label+"MS")
-		f.MB[k] = t.Bool(label+"MB")
+		f.MB[k] = t.Bool(label + "MB")
 		f.MSub[k] = genSub(t, d, label+"MSub")
 	}
 	f.MI = map[int64]string{1: genString(t, d, label+"MI1"), 2: genString(t, d, label+"MI2")}
@@ -406,14 +406,14 @@ func JSONDoc(t Src, d Domain, label string) map[string]interface{} {
 		if d == Small {
 			return float64(smallInt(t, label+l))
 		}
-		if t.Bool(label+l+"_i") {
+		if t.Bool(label + l + "_i") {
 			return float64([]int64{0, 1, -1, 2, 100, 255, 1 << 20}[t.IntRange(0, len([]int64{0, 1, -1, 2, 100, 255, 1 << 20})-1, label+l)])
 		}
 		return genFloat(t, d, label+l)
 	}
 	str := func(l string) interface{} { return genString(t, d, label+l) }
 	return map[string]interface{}{
-		"n": num("n"), "f": num("f"), "s": str("s"), "b": t.Bool(label+"b"),
+		"n": num("n"), "f": num("f"), "s": str("s"), "b": t.Bool(label + "b"),
 		"o":    map[string]interface{}{"x": num("ox"), "s": str("os"), "k": map[string]interface{}{"z": num("okz")}},
 		"arr":  []interface{}{num("a0"), num("a1"), num("a2")},
 		"sarr": []interface{}{str("s0"), str("s1")},
@@ -444,7 +444,7 @@ func State(t Src, c StateCfg, label string) *facts.State {
 		st.Top["N2"] = genIntOfKind(t, reflect.Int64, c.D, label+"N2")
 		st.Top["Q"] = genFloat(t, c.D, label+"Q")
 		st.Top["TS"] = genString(t, c.D, label+"TS")
-		st.Top["TB"] = t.Bool(label+"TB")
+		st.Top["TB"] = t.Bool(label + "TB")
 	}
 	return st
 }
